@@ -1,5 +1,5 @@
 """C19 - results are reproducible and caller data are never modified."""
-import copy
+import os, json, copy
 import numpy as np
 from hypothesis import strategies as st
 
@@ -203,5 +203,71 @@ def known_projection_init(case, clause, detail):
     return bool(case.get("proj")) and "global RNG was consumed" in detail
 
 
-PROFILES = {"solve": Profile("solve", cases, run, quick=3000, thorough=60000, timeout=180)}
+# ---------------------------------------------------------------------------------------------------------------------------
+# isolation between calls: the same call must give the same trace whether or not a *different* call (same problem size, other
+# options) was made earlier in the process. Each side runs in a fresh interpreter, so module-level state left behind by the first
+# call of a process (caches keyed by problem size, mutated defaults) is visible - inside one long-lived process it is not.
+def _digest(o):
+    import hashlib
+    h = hashlib.sha1()
+    for x, _ in o.calls:
+        h.update(np.ascontiguousarray(x, dtype=float).tobytes())
+    s = o.soln
+    if s is not None and s.x is not None:
+        h.update(np.ascontiguousarray(s.x, dtype=float).tobytes())
+        h.update(repr((s.nf, s.nx, s.nruns, s.flag, repr(float(s.obj)))).encode())
+    return {"ncalls": len(o.calls), "digest": h.hexdigest(), "exc": repr(o.exc) if o.exc is not None else None,
+            "summary": None if s is None else [int(s.nf), int(s.nruns), int(s.flag)]}
+
+
+def _iso_main():
+    import sys
+    todo = json.load(sys.stdin)
+    out = [_digest(sc.run_solve(c)) for c in todo]
+    sys.stdout.write("ISO-RESULT " + json.dumps(out) + "\n")
+
+
+def _fresh_process(case_list):
+    import subprocess, sys
+    r = subprocess.run([sys.executable, "-c", "from vp.props import c19; c19._iso_main()"], cwd=core.VERIF, input=json.dumps(case_list),
+                       stdout=subprocess.PIPE, stderr=subprocess.PIPE, text=True, timeout=300, env=dict(os.environ))
+    for line in r.stdout.splitlines():
+        if line.startswith("ISO-RESULT "):
+            return json.loads(line[len("ISO-RESULT "):])
+    raise core.HarnessError("fresh-process run failed: %s" % (r.stderr[-400:],))
+
+
+ISO_PROF = sc.make_prof(fams=["lin", "sinlin", "rosen", "hashed"], noise=False, avg=False, diag=0.0, reg=0.0, zero_resid=0.0, print_progress=0.0,
+                        maxfuns=[20, 40], nmax=3, opts_list=[0, 2, 3, 4, 5, 6, 7, 12, 13], route_bias=0.0, rhoend_exps=[2, 3])
+
+
+@st.composite
+def iso_cases(draw):
+    a = draw(sc.scenarios(ISO_PROF))
+    if not a["up"] or all(k.startswith("logging.") for k in a["up"]):
+        a["up"]["tr_radius.gamma_dec"] = 0.25       # the earlier call must set *something*
+    return a
+
+
+def run_iso(case):
+    res = CaseResult()
+    a = {k: v for k, v in case.items()}
+    b = dict(a)
+    b["up"] = {k: v for k, v in a["up"].items() if k.startswith("logging.")}      # same size, budget and noise flag; default options
+    if any(b["up"].get(k) for k in RANDOM_KEYS) or b.get("noise_flag") != a.get("noise_flag"):
+        return res
+    alone = _fresh_process([b])[0]
+    after = _fresh_process([a, b])[1]
+    res.classes += ["iso:" + t for t in case["tags"][:3]]
+    if alone["exc"] or after["exc"]:
+        res.count("exceptions")
+    if alone["digest"] != after["digest"]:
+        res.fail("C19.same_trace", "the same call gives a different trace after an earlier call with other options in the same process: "
+                 "alone %r, after the other call %r" % (alone["summary"] + [alone["ncalls"]] if alone["summary"] else alone, after["summary"] + [after["ncalls"]] if after["summary"] else after))
+    res.nontrivial = True
+    return res
+
+
+PROFILES = {"solve": Profile("solve", cases, run, quick=3000, thorough=60000, timeout=180),
+            "isolation": Profile("isolation", iso_cases, run_iso, quick=64, thorough=1500, timeout=600)}
 KNOWN = {"projection-init-random-fallback": known_projection_init}
